@@ -190,6 +190,10 @@ class FortranEngine:
         if end is not None and not isinstance(self._locate_period_in_span(end), int):
             raise KeyError(end)
 
+        # As in `iter_periods()`
+        if len(self.span) == 0:
+            raise SolutionError('Object `span` is empty: No periods to solve')
+
         # Form lists of period information (avoid using `iter_periods()` in case
         # this is being over-ridden elsewhere)
 
